@@ -125,6 +125,39 @@ def c20_map(R):
 
         verify(R, "C20.map", AST + "::SourceMapping.GetLineFromOffset", run, replay, label=f"{k}-lines")
 
+        # a mapping is queried many times, in any order (diagnostics format the LATER declaration first): the answer to a query does not depend
+        # on the queries before it
+        def run2(ctx, k=k):
+            m, lens, starts, total = _mapping(ctx, k)
+            o1, o2 = ctx.int("off1"), ctx.int("off2")
+            for o in (o1, o2):
+                ctx.assume(o >= 0)
+                ctx.assume(o.t <= total)
+            m.GetLineFromOffset(o1)
+            r = term(m.GetLineFromOffset(o2))
+            conj = []
+            for i in range(k):
+                inside = z3.And(o2.t >= starts[i], (o2.t < starts[i + 1]) if i + 1 < k else z3.BoolVal(True))
+                conj.append(z3.Implies(inside, r == i))
+            return [("second-query-independent-of-the-first", z3.And(*conj), f"k={k}")]
+
+        def replay2(model, clause, k=k):
+            return script("""
+                from nsl import ast
+                text = "\\n".join("x" * n for n in {{lens}})
+                m = ast.SourceMapping(text)
+                bad = []
+                for o1 in range(len(text) + 1):
+                    for o2 in range(len(text) + 1):
+                        m.GetLineFromOffset(o1)
+                        if m.GetLineFromOffset(o2) != text.count("\\n", 0, o2): bad.append((o1, o2))
+                print(repr(text), 'query pairs (first, second) whose second answer is wrong:', bad[:6])
+                if bad: print('REPLAY-CONFIRMED')
+                """, lens=[max(0, min(int(model.get(f"len{i}", 2)), 6)) for i in range(k)])
+
+        if k >= 2:
+            verify(R, "C20.map.sequence", AST + "::SourceMapping.GetLineFromOffset", run2, replay2, label=f"{k}-lines")
+
 
 @family("C20.str", props=["C20"], functions=[AST + "::Location.__str__", AST + "::Location.__init__", AST + "::Location.GetBegin", AST + "::Location.GetEnd", AST + "::Location.IsUnknown"],
         assumptions=["formatted numbers are traced as tokens (FormatTrace): the code under contract builds the text with str.format and compares no strings",
